@@ -321,8 +321,9 @@ def run(cx):
         "the constant evaluator is evaluated on a complete small expression grammar against Python's values; what reaches the firmware is decided on behaviour: prologues (integers, strings, lists) interpreted from the parsed IR vs CPython, scripts whose values depend on a run-time branch/loop/append for both sensor outcomes (trace equality), constant-environment probes of every device-call argument, literal-vs-variable uniformity and context-freedom of emission; ownership rules (no in-place mutation of environment values, scope copies, no module state). Values of arbitrary user programs are not computed."
     )
     evc = pm.func("_eval_const")
-    ev = pm.func("_eval_const.ev")
-    ab = pm.func("_eval_const._apply_bin")
+    # (report locations only: wherever the evaluator keeps its arms)
+    ev = pm.funcs.get("_eval_const.ev") or evc
+    ab = pm.funcs.get("_eval_const._apply_bin") or evc
 
     # ---- C03-EVAL-OPS ------------------------------------------------------------------------
     r = cx.rule("C03-EVAL-OPS", "the constant evaluator maps every Python operator to the operator.* function with Python's semantics (// -> floordiv, / -> truediv ...), unary/boolean/conditional arms select what Python selects, casts are the four safe casts", floor=12)
@@ -463,6 +464,8 @@ def run(cx):
     # module-level memo through which an earlier statement's (mutable) value could be handed out again
     from . import c10
     c10.rule_global_state(cx, "C03-STATE", [pm], floor=1, only={"_eval_const", "_to_c_expr", "_expr_has_name", "_handle_assignment_ast"})
+    # ... decided on behaviour as well: scripts with tracked, mutated literals transpiled repeatedly in one simulated process
+    c10.rule_interleave(cx, "C03-INTERLEAVE")
 
     # ---- C03-FRESH ---------------------------------------------------------------------------
     r = cx.rule("C03-FRESH", "a list baked into an IR node (flash pattern, glyph bitmap) is a fresh object built for that statement, never the list tracked in the constant environment: a later append/remove on the script's list cannot rewrite a value already baked", floor=2)
